@@ -169,7 +169,9 @@ def run(rep, tier, seed, replay=None):
                     c = _nc.Case(line, d["nargs"])
                 else:
                     c = v.case()
-                    if not c.script or c.script[0] == "X":
+                    # (one socket, no silence of its own: with the largest retry count a server that stays silent is
+                    # legitimately asked again for ever)
+                    if len(c.script) != 1 or c.script[0] == "X" or any(d is None for d in c.script[0]):
                         continue
                     if vec == "SV":
                         c.script[0] = [None] + c.script[0]
